@@ -57,6 +57,29 @@ Theorem sync_collection_equals_local_merge :
                                     (mcs i))) (seq 0 n)).
 Proof. exact ToolkitP.sync_collection_equals_local_merge. Qed.
 
+(* explicit forms (distinct traversal keys): the merged-in pseudo-metrics are exactly the ideal
+   values of the OTHER ranks, in rank order, each in traversal order *)
+Theorem sync_equals_local_merge_exact :
+  forall (M : Type) (sd : M -> sdict) (mrg : M -> list pseudo_t -> M)
+         (g : list nat) (Wg : nat) (ms : nat -> M) order iv tl,
+    let n := List.length g in
+    n <> 1 -> n <= Wg -> NoDup order -> schema_agree g Wg (fun i => [(TMP, sd (ms i))]) order iv tl ->
+    run_all (respond g) (map (fun i => get_synced_metric M sd mrg n i Wg (ms i)) (seq 0 n))
+    = Some (map (fun i => Ok (mrg (ms i) (map (ideal_pseudo order iv)
+                                              (filter (fun r => negb (Nat.eqb r i)) (seq 0 n))))) (seq 0 n)).
+Proof. exact ToolkitP.sync_equals_local_merge_exact. Qed.
+
+Theorem sync_collection_equals_local_merge_exact :
+  forall (M : Type) (sd : M -> sdict) (mrg : M -> list pseudo_t -> M)
+         (g : list nat) (Wg : nat) (mcs : nat -> list (string * M)) order iv tl,
+    let n := List.length g in
+    n <> 1 -> n <= Wg -> NoDup order ->
+    schema_agree g Wg (fun i => map (fun km => (fst km, sd (snd km))) (mcs i)) order iv tl ->
+    run_all (respond g) (map (fun i => get_synced_metric_collection M sd mrg n i Wg (mcs i)) (seq 0 n))
+    = Some (map (fun i => Ok (map (fun km => (fst km, mrg (snd km)
+                   (others i n (map (pseudo (fst km)) (ideal_gath n Wg order iv tl)) []))) (mcs i))) (seq 0 n)).
+Proof. exact ToolkitP.sync_collection_equals_local_merge_exact. Qed.
+
 Theorem sync_and_compute_equals_local_merge :
   forall (M Out : Type) (sd : M -> sdict) (mrg : M -> list pseudo_t -> M) (cmp : M -> Out)
          (g : list nat) (Wg : nat) (ms : nat -> M) order iv tl,
@@ -127,6 +150,8 @@ Print Assumptions world1_identity.
 Print Assumptions sync_no_mismatch.
 Print Assumptions sync_equals_local_merge.
 Print Assumptions sync_collection_equals_local_merge.
+Print Assumptions sync_equals_local_merge_exact.
+Print Assumptions sync_collection_equals_local_merge_exact.
 Print Assumptions sync_and_compute_equals_local_merge.
 Print Assumptions sync_refuted_ndim.
 Print Assumptions sync_refuted_subgroup_root.
